@@ -204,7 +204,7 @@ def run(prop, tier, seed, repo, jobs):
                         samples.append({'case': 'main() entered in /r (q::a) and in /q (a)', 'obligation': ob['name'], 'verdict': 'unsat'})
                         continue
                     nat = mainrun.native_entry_independence(repo)
-                    confirmed = nat['run1_rc'] == 0 and (nat['run2_rc'] != 0 or bool(nat['run2_spawned']))
+                    confirmed = nat['run1_rc'] == 0 and (nat['run2_rc'] != 0 or bool(nat['run2_spawned']) or nat['run3_rc'] != 0 or bool(nat['run3_spawned']))
                     rpath = os.path.join(common.REPLAYS, 'C18-entry-independence.json')
                     os.makedirs(common.REPLAYS, exist_ok=True)
                     json.dump({'kind': 'incr', 'obligation': ob, 'native': nat, 'confirmed': confirmed}, open(rpath, 'w'), indent=1, default=str)
@@ -215,6 +215,30 @@ def run(prop, tier, seed, repo, jobs):
                         inconclusive.append('%s: not reproduced natively (replay %s)' % (ob['name'], rpath))
         except Exception as e:   # pragma: no cover
             inconclusive.append('entry independence: %s' % e)
+        try:
+            res = mainrun.state_file_injectivity((tier, repo))
+            if res['error']:
+                inconclusive.append('record files: %s' % res['error'])
+            else:
+                fns |= set(res['functions'])
+                for ob in res['obligations']:
+                    nob += 1
+                    if ob['verdict'] == 'unsat':
+                        ndis += 1
+                        samples.append({'case': 'storage::get_checksums_file_path over %d target names x 3 projects' % len(mainrun.STATE_NAMES), 'obligation': ob['name'], 'verdict': 'unsat'})
+                        continue
+                    nat = mainrun.native_state_file_pair(ob['pair'], repo)
+                    confirmed = nat[0]['rc'] == 0 and nat[1]['rc'] == 0 and bool(nat[2]['spawned'])
+                    rpath = os.path.join(common.REPLAYS, 'C18-record-files.json')
+                    os.makedirs(common.REPLAYS, exist_ok=True)
+                    json.dump({'kind': 'incr', 'obligation': ob, 'native': nat, 'confirmed': confirmed}, open(rpath, 'w'), indent=1, default=str)
+                    if confirmed:
+                        violations.append(rpath)
+                        samples.append({'obligation': ob['name'], 'verdict': 'sat (reproduced natively: building the second target makes the first one run again)', 'detail': ob['detail']})
+                    else:
+                        inconclusive.append('%s: %s; not reproduced natively (replay %s)' % (ob['name'], ob['detail'], rpath))
+        except Exception as e:   # pragma: no cover
+            inconclusive.append('record files: %s' % e)
     wall = time.time() - t0
     coverage = {
         'explanation': 'symbolic execution of the real incremental::run (and everything below it) over a symbolic file system: every feasible path of two (C05: three) invocations is enumerated by the executor with z3 deciding feasibility, and each obligation is a z3 query per path against a reference semantics',
